@@ -225,6 +225,11 @@ fn gen_host(i: usize, w: &mut Rng, twin_of: Option<&HostCfg>, twin_dim: u64) -> 
     let vlans = (0..nv)
         .map(|_| (*w.pick(&[0x8100u16, 0x88a8, 0x9100]), w.u16() & 0xfff))
         .collect();
+    let macsec = if link != Link::BareIp && nv < 3 && w.chance(1, 5) {
+        Some((w.usize_range(0, nv), w.bool()))
+    } else {
+        None
+    };
     let v6 = w.bool();
     let mut src = [0u8; 16];
     let mut dst = [0u8; 16];
@@ -250,6 +255,7 @@ fn gen_host(i: usize, w: &mut Rng, twin_of: Option<&HostCfg>, twin_dim: u64) -> 
         src,
         dst,
         channel: w.below(3) as u32,
+        macsec,
         v4_opt_words: if w.chance(1, 4) { w.range(1, 10) as u8 } else { 0 },
         v6_pre: pre,
     }
